@@ -159,6 +159,9 @@ pub mod pshims {
                 // the CA honours such a request only when it is signed by the key it has on record for the account
                 forall|n: &str, u: &str, s: String, k: KeyPair, kid: Seq<char>, p: Seq<u8>| #[trigger] d.ensures((n, u), Ok(s)) && #[trigger] kid_request(s@, k, kid, p, u@, n@)
                     ==> kp_fp(k) == old(w).ca_key, //@C11.request_is_signed_by_the_key_the_ca_holds
+                // a key change names, in its inner object, the key the CA holds as `oldKey` and the account it is sent for (RFC 8555 section 7.3.5)
+                forall|n: &str, u: &str, s: String, k: KeyPair, kid: Seq<char>, p: Seq<u8>| #[trigger] d.ensures((n, u), Ok(s)) && #[trigger] kid_request(s@, k, kid, p, u@, n@) && is_rollover(p)
+                    ==> rollover_old_key(p) == old(w).ca_key && rollover_account(p) == kid, //@C11.key_change_names_the_key_the_ca_holds_and_its_account,C04.key_change_names_the_key_the_ca_holds_and_its_account
             ensures final(e).name == old(e).name, final(e).dir == old(e).dir, final(w).saves == old(w).saves, final(w).saved == old(w).saved,
                 r is Ok ==> exists|n: &str, u: &str, s: String| #[trigger] d.ensures((n, u), Ok(s)) && u@ == url@ && ca_updated(s@, *old(w), *final(w)),
                 // an error document from the CA means the request has been sent; any other error may have happened before that
